@@ -399,6 +399,9 @@ func (x *Exec) modFx(f *fx, callee *ssa.Function, cc *ssa.CallCommon, binds []ss
 	case *ast.CallExpr:
 		if id, ok := n.Fun.(*ast.Ident); ok {
 			switch id.Name {
+			case "trace", "files":
+				f.ghost = true
+				return
 			case "rem", "out":
 				f.ghost = true
 				if aid, ok := n.Args[0].(*ast.Ident); ok {
